@@ -613,6 +613,11 @@ func c06Case(r *mon.R, s *c06Suite, idx int, seen *c06Seen) {
 		got := S.Pair(sum, q.mk())
 		want := s.gt.Point().Add(c.pair(p1, q), c.pair(p2, q))
 		c.judge("additive/left", []*c06Opnd{p1, p2, q}, "e(P1+P2,Q) = e(P1,Q) + e(P2,Q)", got, want, nil)
+		// the same sum accumulated in place from the GT identity (the usual way to sum pairing values)
+		acc := s.gt.Point().Null()
+		acc.Add(acc, c.pair(p1, q))
+		acc.Add(acc, c.pair(p2, q))
+		c.judge("additive/left-accumulated-from-Null", []*c06Opnd{p1, p2, q}, "O_T + e(P1,Q) + e(P2,Q) (in place) = e(P1+P2,Q)", acc, got, nil)
 	})
 	c.guard("Pair", "additive/right", func() {
 		rb := c06NewRoot(s.g2, rng, rng.IntN(3))
